@@ -2,6 +2,7 @@ package checks
 
 import (
 	"context"
+	"errors"
 	"fmt"
 	"strings"
 
@@ -196,8 +197,76 @@ func xtalkScenario(p xParams) func() {
 	}
 }
 
+// raceCancelScenario: call A's context is cancelled by a free-running thread that the
+// explorer places at every instant (in particular between the routing of A's reply and
+// A's own select), then the same goroutine issues call B on the same node(s). Whatever
+// per-call state A leaves behind must not leak into B.
+func raceCancelScenario(a, b string, gated bool) func() {
+	return func() {
+		w := world.New(world.Opts{N: 2, Window: 4})
+		if w.Cfg == nil {
+			return
+		}
+		w.Handle = func(h *world.HCtx) world.Reply {
+			if gated && h.Tok == 1 {
+				h.Release()
+				w.Wait(fmt.Sprintf("n%d", h.Node))
+			}
+			if h.Send != nil {
+				h.Send(0, 0)
+			}
+			return world.Reply{}
+		}
+		mk := func(kind string) *world.Call {
+			c := w.NewCall(kind)
+			if kind == "GRPCCall" || strings.HasPrefix(kind, "Unicast") {
+				c.Node = 1
+			}
+			c.Verdict = func(inv *world.QFInv) { inv.Level = len(inv.Keys); inv.Quorum = len(inv.Keys) >= 2 }
+			return c
+		}
+		ca, cb := mk(a), mk(b)
+		mc.GoNamed("client", func() {
+			w.Invoke(ca)
+			w.Invoke(cb)
+		})
+		mc.GoNamed("cancel", func() { ca.Cancel(context.Canceled) })
+		if gated {
+			mc.GoNamed("gates", func() { w.Open("n1"); w.Open("n2") })
+		}
+		mc.Quiesce()
+		for i := 0; i < 3; i++ {
+			if mc.FireTimers(nil) == 0 {
+				break
+			}
+			mc.Quiesce()
+		}
+		name := fmt.Sprintf("xtalk-race-cancel/%s>%s/gated=%v", a, b, gated)
+		checkGenuine(w, ca, name)
+		checkGenuine(w, cb, name)
+		if cb.Returned && cb.Err != nil && errors.Is(cb.Err, context.Canceled) {
+			fail("C05/foreign-error", classOf(b), "%s: call t%d has a live context but failed with %v (the outcome of the cancelled call t%d)", name, cb.Tok, cb.Err, ca.Tok)
+		}
+		if !cb.Returned {
+			fail("C05/call-stuck", classOf(b), "%s: call t%d has not returned", name, cb.Tok)
+		}
+		mc.Outcome("a=%v b=%v", ca.Err != nil, cb.Err != nil)
+	}
+}
+
 func xtalkInstances(tier string) []Instance {
 	var out []Instance
+	for _, a := range []string{"GRPCCall", "QuorumCall", "QuorumCallAsync", "Correctable", "CorrectableStream", "Unicast", "Multicast"} {
+		for _, b := range []string{"GRPCCall", "QuorumCall"} {
+			for _, gated := range []bool{false, true} {
+				bound := 1
+				if thorough(tier) || a == "GRPCCall" {
+					bound = 2
+				}
+				out = append(out, Instance{Name: fmt.Sprintf("xtalk-race-cancel/%s>%s/gated=%v", a, b, gated), Bound: bound, Root: raceCancelScenario(a, b, gated)})
+			}
+		}
+	}
 	add := func(bound int, threads ...[]xCall) {
 		p := xParams{threads: threads}
 		out = append(out, Instance{Name: p.name(), Bound: bound, Root: xtalkScenario(p)})
